@@ -14,6 +14,9 @@ from concurrent.futures import ThreadPoolExecutor
 HERE = os.path.dirname(os.path.dirname(os.path.abspath(__file__)))
 
 M = [  # (name, file, old, new, property, --only, substring expected in a VIOLATION line)
+    ('setinitialpoints-guess-into-member-1', 'mystic/abstract_solver.py', 'self.population[0][:] = x0.tolist()', 'self.population[1][:] = x0.tolist()', 'C01', 'C01/SetInitialPoints', 'the-guess-is-member-0'),
+    ('setinitialpoints-box-twice-as-wide-above', 'mystic/abstract_solver.py', 'max = x0*(1+radius)', 'max = x0*(1+2*radius)', 'C01', 'C01/SetInitialPoints', 'the-sampling-box-is-the-radius-box'),
+    ('unpair-limits-swapped', 'mystic/tools.py', 'pairsT = asarray(pairs).transpose()', 'pairsT = asarray(pairs).transpose()[::-1]', 'C02', 'tools.unpair', 'every-parameter-keeps-its-own-limits'),
     ('monitor-record-by-reference', 'mystic/monitors.py', 'self._x.append(listify(x))', 'self._x.append(x)', 'C20', 'Monitor.__call__', 'stored-parameters-are-a-copy'),
     ('monitor-k-dropped', 'mystic/monitors.py', 'self._y.append(listify(self._k(y, _type)))', 'self._y.append(listify(y))', 'C20', 'Monitor.__call__', 'new-record-holds-k-times-y'),
     ('monitor-k-ratio-inverted', 'mystic/monitors.py', '_ik = _kdiv(monitor.k, self.k, float)', '_ik = _kdiv(self.k, monitor.k, float)', 'C20', 'Monitor.', 'visible-costs'),
